@@ -86,8 +86,10 @@ def describe(case):
     return {"fixed_pair": FIXED[case[2]][0]}
 
 
-def seg_curve(seg, interval):
+def seg_curve(seg, interval, ints=False):
     a, b = interval
+    if ints:  # integer knots and integer points
+        return lib.Curve([int(a), int(a), int(b), int(b)], lib.np.array(seg, dtype="int64"))
     return lib.Curve([float(a), float(a), float(b), float(b)], lib.np.array(seg, dtype="float64"))
 
 
@@ -160,6 +162,8 @@ FIXED = [
     ("elevated segment x segment (crossing)", _elev((0, 0), (2, 2)), _bez([(0, 2), (2, 0)]), "meet"),
     ("elevated segment x far segment", _elev((0, 0), (2, 2)), _bez([(5, 5), (6, 7)]), "disjoint"),
     ("elevated segment x elevated segment", _elev((0, 0), (2, 2)), _elev((0, 2), (2, 0)), "meet"),
+    ("int knots: segment x elevated segment", ([0, 0, 1, 1], [(0, 2), (2, 0)], None), ([0, 0, 0, 1, 1, 1], [(0, 0), (1, 1), (2, 2)], None), "meet"),
+    ("int knots: segment x far elevated segment", ([0, 0, 1, 1], [(0, 2), (2, 0)], None), ([0, 0, 0, 1, 1, 1], [(5, 5), (6, 6), (7, 7)], None), "disjoint"),
     ("parabola x y=1/2 (two transversal crossings)", _bez([(0, 0), (1, 2), (2, 0)]), _bez([(-1, 0.5), (3, 0.5)]), "meet"),
     ("parabola x y=1 (tangent)", _bez([(0, 0), (1, 2), (2, 0)]), _bez([(-1, 1.0), (3, 1.0)]), "meet"),
     ("parabola x y=3/2 (disjoint, overlapping boxes)", _bez([(0, 0), (1, 2), (2, 0)]), _bez([(-1, 1.5), (3, 1.5)]), "disjoint"),
@@ -195,6 +199,12 @@ def run_case(case, res):
                 if k != "disjoint" or boxes:
                     res.nontriv((A, B, ib))
                 check_pairs(res, ca, cb, k, crossings, f"segment {A} on {ia} x segment {B} on {ib}", tags, True)
+            if (B[0][0] + 2 * B[0][1] + 3 * B[1][0] + 5 * B[1][1]) % 7 == 0:
+                # every seventh partner also with integer knots and integer points
+                ia, ib = (0, 1), (1, 3)
+                crossings = [(st[0], 1 + 2 * st[1])] if k == "cross" else []
+                check_pairs(res, seg_curve(A, ia, True), seg_curve(B, ib, True), k, crossings,
+                            f"segment {A} on {ia} x segment {B} on {ib} (int knots and points)", dict(shape="segments_int", cls=k, boxes=boxes), True)
         return res.observe(sorted(res.outcomes.items()))
     if kind == "selfcross":
         knots = [F(0), F(1), F(2), F(3)]
